@@ -50,7 +50,8 @@ SCENARIOS = ["doc_date", "doc_date_ctor", "uncertainty", "sec_card", "prop_card"
              "append_scalar", "setitem_wrong_kind", "setitem_out_of_range", "reorder_detached",
              "values_unconvertible", "dtype_unconvertible", "create_property_bad_values",
              "merge_unconvertible_empty_typed", "link_bad_after_good", "link_merge_refused",
-             "include_merge_refused", "include_bad_after_good", "link_difftype_refused"]
+             "include_merge_refused", "include_bad_after_good", "link_difftype_refused",
+             "merge_difftype_deep", "link_difftype_deep", "merge_strict_multiline", "merge_casetype"]
 
 
 def _secs(doc):
@@ -188,6 +189,41 @@ def scenario_body(case):
                 lnk.include = target_value
             else:
                 lnk.link = target_value
+        elif name in ("merge_difftype_deep", "link_difftype_deep", "merge_casetype"):
+            # dest and src share a child (same name and type); below it a grandchild with the same
+            # name but another type; src also carries things that would be taken over first
+            dest = odml.Section(name="deep-dest", type="t", parent=doc)
+            dchild = odml.Section(name="shared", type="t", parent=dest)
+            odml.Section(name="clash", type="TypeOne" if name == "merge_casetype" else "one", parent=dchild)
+            src = odml.Section(name="deep-src", type="t", definition="src definition", parent=doc)
+            odml.Property(name="early", values=[1], parent=src)
+            odml.Section(name="early-sec", type="t", parent=src)
+            schild = odml.Section(name="shared", type="t", reference="src reference", parent=src)
+            odml.Property(name="early-deep", values=[2], parent=schild)
+            odml.Section(name="clash", type="typeone" if name == "merge_casetype" else "two", parent=schild)
+            if b % 2:
+                # one level deeper
+                d2 = odml.Section(name="shared2", type="t", parent=dchild)
+                odml.Section(name="clash2", type="one", parent=d2)
+                s2 = odml.Section(name="shared2", type="t", parent=schild)
+                odml.Property(name="early-deeper", values=[3], parent=s2)
+                odml.Section(name="clash2", type="two", parent=s2)
+            universe = snap.reachable([doc, other])
+            before = snap.identity(universe)
+            if name == "link_difftype_deep":
+                dest.link = "/deep-src"
+            else:
+                dest.merge(src, strict=bool(b % 3))
+        elif name == "merge_strict_multiline":
+            dest = odml.Section(name="ml-dest", type="t", parent=doc)
+            odml.Property(name="note", values=["first"], dtype="string", parent=dest)
+            src = odml.Section(name="ml-src", type="t", definition="taken over first", parent=doc)
+            odml.Property(name="before", values=[1], parent=src)
+            odml.Property(name="note", values=["line one\nline two"], dtype="string", unit="u", definition="d",
+                          parent=src)
+            universe = snap.reachable([doc, other])
+            before = snap.identity(universe)
+            dest.merge(src, strict=True)
         elif name == "merge_wrong_kind":
             if b % 2:
                 other.properties[0].merge(sec)
